@@ -112,7 +112,8 @@ pub type Table<E> = HashTable<E, CheckingAlloc>;
 
 /// The caller-supplied hasher closure: returns the element's hash; counted and fault-injectable.
 pub fn hasher_of<E: ElemT>(e: &E) -> u64 {
-    let h = e.h();
+    // (an unlawful caller: the hasher closure answers differently on every call)
+    let h = env::chaos_hash_answer().unwrap_or_else(|| e.h());
     let p = env::with(|en| {
         en.hash_calls += 1;
         en.panic_hash_at != 0 && en.hash_calls == en.panic_hash_at
@@ -262,7 +263,7 @@ impl<E: ElemT> TableDrv<E> {
         let vv = ev.v as u32;
         // the hash the caller supplies: plan `n` (0 or 1) of the class; untracked elements always use plan 0
         let hp = if E::TRACKED { (ev.n.max(0) as u8) & 1 } else { 0 };
-        let h = if ev.k >= 0 { env::plan_hash(hp, k) } else { 0 };
+        let h = if ev.k >= 0 { env::chaos_hash_answer().unwrap_or_else(|| env::plan_hash(hp, k)) } else { 0 };
         match ev.op.as_str() {
             "new" => {
                 drop(self.tabs[t - 1].take());
@@ -282,13 +283,13 @@ impl<E: ElemT> TableDrv<E> {
                 ev.r = vec![o.get().id() as i64];
             }
             "t_find" => {
-                ev.r = match self.tab(t).find(h, |e| e.class() == k && e.h() == h) {
+                ev.r = match self.tab(t).find(h, |e| env::eq_hook(e.class() == k && e.h() == h)) {
                     Some(e) => vec![e.id() as i64, e.v() as i64],
                     None => vec![-1, -1],
                 };
             }
             "t_find_mut" => {
-                ev.r = match self.tab(t).find_mut(h, |e| e.class() == k && e.h() == h) {
+                ev.r = match self.tab(t).find_mut(h, |e| env::eq_hook(e.class() == k && e.h() == h)) {
                     Some(e) => {
                         e.set_v(vv);
                         vec![e.id() as i64, e.v() as i64]
@@ -299,7 +300,7 @@ impl<E: ElemT> TableDrv<E> {
             "t_entry_or_insert" | "t_entry_insert" | "t_entry_and_modify" | "t_entry_drop" => {
                 let op = ev.op.clone();
                 let m = self.tabs[t - 1].as_mut().unwrap();
-                let e = m.entry(h, |e| e.class() == k && e.h() == h, hasher_of::<E>);
+                let e = m.entry(h, |e| env::eq_hook(e.class() == k && e.h() == h), hasher_of::<E>);
                 let occ = matches!(e, Entry::Occupied(_));
                 match op.as_str() {
                     "t_entry_or_insert" => {
@@ -336,7 +337,7 @@ impl<E: ElemT> TableDrv<E> {
             "t_remove" => {
                 let m = self.tabs[t - 1].as_mut().unwrap();
                 let mut kept = None;
-                ev.r = match m.find_entry(h, |e| e.class() == k && e.h() == h) {
+                ev.r = match m.find_entry(h, |e| env::eq_hook(e.class() == k && e.h() == h)) {
                     Ok(o) => {
                         let (old, _vac) = o.remove();
                         let r = vec![old.id() as i64, old.v() as i64];
@@ -351,7 +352,7 @@ impl<E: ElemT> TableDrv<E> {
                 // OccupiedEntry::remove followed by re-insertion through the returned VacantEntry
                 let m = self.tabs[t - 1].as_mut().unwrap();
                 let mut kept = None;
-                ev.r = match m.find_entry(h, |e| e.class() == k && e.h() == h) {
+                ev.r = match m.find_entry(h, |e| env::eq_hook(e.class() == k && e.h() == h)) {
                     Ok(o) => {
                         let (old, vac) = o.remove();
                         let el = E::make(k, vv, h);
@@ -367,7 +368,7 @@ impl<E: ElemT> TableDrv<E> {
             }
             "t_occ_get_mut" => {
                 let m = self.tabs[t - 1].as_mut().unwrap();
-                ev.r = match m.find_entry(h, |e| e.class() == k && e.h() == h) {
+                ev.r = match m.find_entry(h, |e| env::eq_hook(e.class() == k && e.h() == h)) {
                     Ok(mut o) => {
                         o.get_mut().set_v(vv);
                         let r = o.into_mut();
@@ -607,7 +608,7 @@ impl<E: ElemT> TableDrv<E> {
                         let mut hs = [0u64; $n];
                         hs.copy_from_slice(&hashes[..$n]);
                         let res: [Option<&mut E>; $n] =
-                            m.get_many_mut(hs, |i, e| (e.class() == classes[i] && e.h() == hashes[i]) || (sloppy && e.class() == classes[i] + 1));
+                            m.get_many_mut(hs, |i, e| env::eq_hook((e.class() == classes[i] && e.h() == hashes[i]) || (sloppy && e.class() == classes[i] + 1)));
                         for (i, o) in res.into_iter().enumerate() {
                             match o {
                                 Some(e) => {
